@@ -168,7 +168,7 @@ class FftScenario(Scenario):
     name = 'fft'
     prop = 'C09'
     quick_runs = 1500
-    thorough_runs = 150000
+    thorough_runs = 60000
     audit_every = 8
     rule = ('each run = 1-2 callers each running a broadband loop of 2..8 wavelengths (seeded order, FFT grids of either parity, '
             'oversampling 1..3, scalar or commensurate per-axis pixel scales, monolithic or segmented pupils of either parity no larger '
@@ -223,7 +223,7 @@ class FftScenario(Scenario):
         f = rng.choice([0.5, 1.0, 2.0])
         dx = rng.choice([1e-3, 2.5e-3, 4e-3])
         peraxis = force.get('peraxis', rng.random() < 0.25)
-        nwl = force.get('nwl') or rng.randint(2, 8)
+        nwl = force.get('nwl') or rng.randint(2, 8 * self.depth)
         d0 = 5e-6
         # FFT grid (rows, cols) per wavelength; lambda = (Nr + delta) * dx*du0/(f*os)
         if peraxis:
